@@ -95,6 +95,68 @@ pub fn embed_word(cells: &[Vec<f32>], k: usize, e: &Embed, idx: &mut Vec<u8>) {
 
 pub struct Over;
 
+/// The open finding KF06 in a build with arithmetic overflow checks: the plain `+=` on u8 of the scalar kernel
+/// (pli/mod.rs) and of DiscreteMatrix::score_position (pwm/mod.rs) panics where a release build wraps around.
+pub fn is_u8_add_overflow(loc: &str, msg: &str) -> bool {
+    msg.contains("attempt to add with overflow") && (loc.contains("lightmotif/src/pli/mod.rs") || loc.contains("lightmotif/src/pwm/mod.rs"))
+}
+
+/// Does any cell the scalar kernel computes - valid positions AND the padding positions past the end of the
+/// sequence, which it scores all the same - add up to more than 255?
+pub fn any_scored_cell_overflows<A: Alphabet>(dm: &DiscreteMatrix<A>, striped: &StripedSequence<A, U32>) -> bool {
+    use lightmotif::abc::Symbol;
+    let m = dm.matrix().rows();
+    let rows = striped.matrix().rows() - striped.wrap();
+    if striped.matrix().rows() < rows + m.saturating_sub(1) {
+        return false;
+    }
+    for row in 0..rows {
+        for col in 0..32 {
+            let mut sum = 0u32;
+            for j in 0..m {
+                sum += dm.matrix()[j][striped.matrix()[row + j][col].as_index()] as u32;
+            }
+            if sum > 255 {
+                return true;
+            }
+        }
+    }
+    false
+}
+
+/// Is this harness (and with it the library) compiled with arithmetic overflow checks?
+pub fn overflow_checked_build() -> bool {
+    static FLAG: std::sync::OnceLock<bool> = std::sync::OnceLock::new();
+    *FLAG.get_or_init(|| {
+        let hook = std::panic::take_hook();
+        std::panic::set_hook(Box::new(|_| {}));
+        let r = std::panic::catch_unwind(|| std::hint::black_box(255u8) + std::hint::black_box(1u8)).is_err();
+        std::panic::set_hook(hook);
+        r
+    })
+}
+
+/// Score all positions with a scalar-kernel backend. `Ok(None)`: the kernel panicked on the u8 addition, some
+/// window of the case sums above 255 and that class is an excluded known finding (the backend is skipped for
+/// this case); `Err`: a failure to report.
+fn scalar_scores(name: &str, any_overflow: bool, cx: &Cx, f: impl FnOnce() -> StripedScores<u8, U32>) -> Result<Option<StripedScores<u8, U32>>, Failure> {
+    match catch_inner(f) {
+        Ok(sc) => Ok(Some(sc)),
+        Err((loc, msg)) => {
+            let sig = format!("{}:underestimate:{}", name, WRAP_CLASS);
+            if is_u8_add_overflow(&loc, &msg) && any_overflow {
+                if cx.is_excluded(&sig) {
+                    Ok(None)
+                } else {
+                    Err(Failure::new(sig, format!("a scored cell's (valid or padding position) discretised cells sum above 255 and the scalar kernel panicked at {}: {} (a build without overflow checks wraps around instead)", loc, msg)))
+                }
+            } else {
+                Err(Failure::new(panic_sig(&loc, &msg), format!("{}: panicked at {}: {}", name, loc, msg)))
+            }
+        }
+    }
+}
+
 fn strategy(tier: Tier) -> BoxedStrategy<Case> {
     prop_oneof![4 => Just(Abc::Dna), 1 => Just(Abc::Protein)]
         .prop_flat_map(move |abc| {
@@ -217,7 +279,12 @@ where
         let sig = format!("DiscreteMatrix::score_position:underestimate:{}", WRAP_CLASS);
         let excl = cx.is_excluded(&sig);
         // in a release build the += wraps; calling it on a window that overflows is the finding itself
-        let f = |i: usize| dm.score_position(&striped, i);
+        // (with overflow checks on it panics instead: counted as the worst under-estimate, 0)
+        let f = |i: usize| match catch_inner(|| dm.score_position(&striped, i)) {
+            Ok(b) => b,
+            Err((loc, msg)) if is_u8_add_overflow(&loc, &msg) && sums[i] > 255 => 0,
+            Err((loc, msg)) => panic!("{}: {}", loc, msg),
+        };
         let _ = excl;
         if let Some(fl) = judge("DiscreteMatrix::score_position", &f, &scale, &r32, &sums, &thresholds, true, &mut c) {
             return (Some(fl), c.excluded_positions);
@@ -225,13 +292,18 @@ where
     }
     // generic kernel
     {
-        let sc: StripedScores<u8, U32> = Pipeline::<A, _>::generic().score(&dm, &striped);
-        if sc.max_index() != n {
-            return (Some(Failure::new("generic:count", format!("u8 scores have max_index {} != {}", sc.max_index(), n))), 0);
-        }
-        let f = |i: usize| sc[i];
-        if let Some(fl) = judge("generic", &f, &scale, &r32, &sums, &thresholds, true, &mut c) {
-            return (Some(fl), c.excluded_positions);
+        match scalar_scores("generic", any_scored_cell_overflows(&dm, &striped), cx, || Pipeline::<A, _>::generic().score(&dm, &striped)) {
+            Err(fl) => return (Some(fl), c.excluded_positions),
+            Ok(None) => c.excluded_positions += sums.iter().filter(|&&x| x > 255).count() as u64,
+            Ok(Some(sc)) => {
+                if sc.max_index() != n {
+                    return (Some(Failure::new("generic:count", format!("u8 scores have max_index {} != {}", sc.max_index(), n))), 0);
+                }
+                let f = |i: usize| sc[i];
+                if let Some(fl) = judge("generic", &f, &scale, &r32, &sums, &thresholds, true, &mut c) {
+                    return (Some(fl), c.excluded_positions);
+                }
+            }
         }
     }
     (None, c.excluded_positions)
@@ -276,10 +348,15 @@ fn run_dna_simd(case: &Case, cx: &Cx, info: &mut CaseInfo) -> (Option<Failure>, 
             Arm::Sse2 => "dispatch[sse2]",
             Arm::Avx2 => "dispatch[avx2]",
         };
-        let sc: StripedScores<u8, U32> = Pipeline::<Dna, _>::dispatch().score(&dm, &striped);
-        let f = |i: usize| sc[i];
-        if let Some(fl) = judge(name, &f, &scale, &r32, &sums, &thresholds, arm != Arm::Avx2, &mut c) {
-            return (Some(fl), c.excluded_positions);
+        match scalar_scores(name, any_scored_cell_overflows(&dm, &striped), cx, || Pipeline::<Dna, _>::dispatch().score(&dm, &striped)) {
+            Err(fl) => return (Some(fl), c.excluded_positions),
+            Ok(None) => c.excluded_positions += sums.iter().filter(|&&x| x > 255).count() as u64,
+            Ok(Some(sc)) => {
+                let f = |i: usize| sc[i];
+                if let Some(fl) = judge(name, &f, &scale, &r32, &sums, &thresholds, arm != Arm::Avx2, &mut c) {
+                    return (Some(fl), c.excluded_positions);
+                }
+            }
         }
     }
     (None, c.excluded_positions)
